@@ -22,14 +22,19 @@ CONF = {
     'gates': dict(quick=[('gates-wide', ('H_G', 'M_G', 'T_G', 'O_G', 3, 3, 'NoGates'), 3000),
                          ('gates-deep', ('H_G', 'M_E0', 'T_G2', 'O_G2', 5, 2, 'NoGates'), 2000),
                          ('gates-sim', ('H_G', 'M_G', 'T_G', 'O_G', 9, 4, 'NoGates'), 2500, (700, 40)),
+                         ('gates-ovr', ('H_GO', 'M_E0', 'T_GO', 'O_GO', 3, 3, 'NoGates'), 1200),
                          ('one-qubit', ('H_G1', 'M_E0', 'T_G1', 'O_G2', 4, 2, 'NoGates'), 300),
                          ('four-qubits', ('H_G4', 'M_E0', 'T_G4', 'O_G2', 4, 2, 'NoGates'), 1500)],
                   thorough=[('gates-wide', ('H_G', 'M_G', 'T_G', 'O_G', 4, 3, 'NoGates'), 100000),
                             ('gates-deep', ('H_G', 'M_E0', 'T_G2', 'O_G2', 6, 2, 'NoGates'), 100000),
+                            ('gates-ovr', ('H_GO', 'M_E0', 'T_GO', 'O_GO', 4, 3, 'NoGates'), 40000),
                             ('one-qubit', ('H_G1', 'M_E0', 'T_G1', 'O_G2', 6, 2, 'NoGates'), 20000),
                             ('four-qubits', ('H_G4', 'M_E0', 'T_G4', 'O_G2', 5, 2, 'NoGates'), 60000)]),
     'par': dict(quick=[('par', ('H_P', 'M_P', 'T_P', 'O_P', 4, 4, 'NoGates'), 6000)],
-                thorough=[('par', ('H_P', 'M_P', 'T_P', 'O_P', 5, 4, 'NoGates'), 150000)]),
+                # (MaxNodes 5 is out of reach exhaustively since the nested-macro gates were added: 18 M states and counting;
+                # deeper programs come from TLC's simulation mode)
+                thorough=[('par', ('H_P', 'M_P', 'T_P', 'O_P', 4, 4, 'NoGates'), 150000),
+                          ('par-deep', ('H_P', 'M_P', 'T_P', 'O_P', 7, 4, 'NoGates'), 60000, (20000, 40))]),
 }
 
 CONF['views'] = dict(quick=[('gates-deep', ('H_G', 'M_E0', 'T_G2', 'O_G2', 4, 2, 'NoGates'), 6000), ('struct', ('H_E', 'M_E0', 'T_E', 'O_E', 3, 3), 6000),
@@ -47,7 +52,7 @@ PROPS = {
                 rule='same enumeration as C12, executed by the emulator and by the hardware-output parser on an output '
                      'list of the length the specification computes; non-trivial = distinct accepted programs with a loop '
                      'around a subcircuit'),
-    'C03': dict(conf=['gates'], owned={'vector', 'exact_repr', 'applied_gates', 'probabilities'}, sites=('run',),
+    'C03': dict(conf=['gates'], owned={'vector', 'exact_repr', 'applied_gates', 'probabilities'}, sites=('run', 'run_ovr'),
                 rule='programs over the exact gate family on 3 qubits (direct, aliased and named qubits, macro parameters, '
                      'let-valued parameters, loops, parallel blocks); non-trivial = distinct accepted programs applying >= 2 '
                      'gates with a unitary'),
@@ -156,6 +161,18 @@ def run_exec(job):
     if 'run' in job['sites']:
         obs = execrun.observe(lambda: run_jaqal_circuit(circ), seed=job['seed'])
         cases.append({'id': job['id'] + '/run', 'site': 'run', 'inp': inp, 'text': text, 'obs': obs, 'outs': []})
+    if 'run_ovr' in job['sites']:
+        # executed after let substitution under an override dictionary
+        from jaqalpaq.core.algorithm import fill_in_let
+        for k, ovr in enumerate(job.get('ovrs', [])):
+            c2, e2 = impl.with_cpu_limit(lambda: fill_in_let(circ, override_dict=passes.ovr_dict(ovr)))
+            if e2 is not None:
+                obs = dict(execrun.EMPTY_OBS, cls='timeout' if isinstance(e2, impl.Timeout) else impl.classify_exc(e2), msg=str(e2)[:200],
+                           family=execrun.family(str(e2)), subs=[], readouts=[], visits=[], applies=[])
+            else:
+                obs = execrun.observe(lambda: run_jaqal_circuit(c2), seed=job['seed'])
+            cases.append({'id': '%s/run_ovr/%d' % (job['id'], k), 'site': 'run_ovr', 'inp': inp, 'ovr': ovr,
+                          'text': text + ' | override %s' % passes.ovr_dict(ovr), 'obs': obs, 'outs': []})
     if 'rerun' in job['sites']:
         # one job executed twice, the result views read in between (results accumulate in the subcircuit objects)
         from jaqalpaq.emulator.unitary import UnitarySerializedEmulator
@@ -243,7 +260,8 @@ def main(prop, tier):
                 rep.cov['exhaustive'] = False
             for n, it in enumerate(items):
                 jobs.append({'id': '%s/%d' % (name, n), 'prog': it['prog'], 'nv': it['nv'], 'nq': it['nq'],
-                             'sites': spec['sites'], 'seed': core.seed() + n})
+                             'sites': spec['sites'], 'seed': core.seed() + n,
+                             'ovrs': passes.override_choices(it['prog'], rng, [0, 2, 3, 1], 2)[1:] if 'run_ovr' in spec['sites'] else []})
                 if prop == 'C13' and "'par': True" in repr(it['prog']['body']):
                     rp = dict(it['prog'], body=[reverse_par(x) for x in it['prog']['body']])
                     jobs.append({'id': '%s/%d/rev' % (name, n), 'prog': rp, 'nv': it['nv'], 'nq': it['nq'],
